@@ -50,16 +50,19 @@ fn main() {
         "A case is a stream of segments (one command with parameters and terminator, or plain text) for one emulation, fed char by char to print_char on an 80x25 terminal buffer, \
          get_next_action drained after every char (a loop is followed for 100 steps), get_picture_data read back (RIP: at the end; IGS: after every segment). Parsers are built as icy_term builds them \
          (rip::Parser over ansi::Parser with an empty cache directory; igs::Parser over DrawExecutor). \
-         rip_table (exhaustive): 54 commands of the level-0/1/9 tables x {fresh, state-setting preamble} x every parameter string over {0,1,Z} of length 0..=6 (thorough: 0..=8), 9 periodic patterns for every longer length up to 24, and for the lengths 8 and 10 (thorough: 10 and 12) all strings of two-digit fields over {00,0Z,ZZ}. \
+         rip_table (exhaustive): 54 commands of the level-0/1/9 tables x {fresh, state-setting preamble} x every parameter string over {0,1,Z} of length 0..=6 (thorough: 0..=8), 9 periodic patterns for every longer length up to 40, and for the lengths 8 and 10 (thorough: 10 and 12) all strings of two-digit fields over {00,0Z,ZZ}. \
          igs_table (exhaustive): 46 letters + unknown + '&' x {fresh, preamble} x 0..=12 parameters x value patterns over {0,1,3,8,200,40000} (uniform, selector+uniform, ramps, point counts, one or two large positions). \
-         igs_loops (exhaustive): '&' over every letter x (4 small ranges incl. step 0 x 7 parameter styles (x, y, +n, -n, !n, mixed) + range 0..40001 step 40000 x {x, y}) x 3 declared counts x {fresh, preamble}. \
+         igs_loops (exhaustive): '&' over every letter x (4 small ranges incl. step 0 x 8 parameter styles (x, y, +n, -n, !n, mixed; -n and !n make every parameter of every command negative) + range 0..40001 step 40000 x {x, y}) x 3 declared counts x {fresh, preamble}. \
          rip_pairs / igs_pairs (exhaustive): every state-setting command with each of its selector values (fonts x direction x size, write modes, line and fill styles, button styles x label orientation, \
          viewports in / across / outside the canvas, palettes, saved images; IGS: fill attributes, pens incl. numbers > 15, marker and line types, drawing modes, text effects, resolution, initialise, grabbed blocks) \
          followed by every drawing command with ordinary in-canvas parameters. \
+         rip_text / igs_text (exhaustive): every command with a text part (RIP: T @ $ 1M 1t 1W 1I 1U 1D 1ESC 1R 1F 9ESC; IGS: W N X < and plain text) x {fresh, preamble} x text lengths \
+         {0,1,2,127,128,129,130,255,256,257,260,1000} x filler alphabets {ASCII, Latin-1 letters, characters above U+00FF, control characters, the emulation's own terminator / escape / separator characters} \
+         x {as is, one ASCII character in front}. Texts are sequences of chars (not bytes); the random parts draw the same kind of long texts in 1 of 10 text positions. \
          rip_random / igs_random: 1..=10 segments, fields from {0,1,small,canvas edges,max,random}, truncated / over-long / punctuated / lower-case parameter lists, continuation lines, text variables, \
          unknown commands, plain text and ANSI between commands, chained and line-separated commands, loops with chain-gang targets, signed and empty IGS parameters up to 99999. \
          Oracles: no panic (key = panic signature); no abort (abort|signal|family); one command <= 0.5 s CPU per 64 bytes (work.cpu|family; a segment is killed after 0.8 s CPU); no sleeping \
-         (stall.sleep|family: >150 ms neither running nor runnable, 3 runs); loops end (loop.endless / loop.overrun); canvas data length = 4*w*h (canvas.size|family). family = emulation|command letter. \
+         (stall.sleep|family: >150 ms neither running nor runnable, 3 runs); no Pause action above 30 s (stall.pause|family); loops end (loop.endless / loop.overrun); canvas data length = 4*w*h (canvas.size|family). family = emulation|command letter. \
          A panicking command is removed and the rest of the stream evaluated again, so defects behind a known one are still reported. \
          Non-trivial: at least one command was dispatched (RIP: the canvas changed hands, i.e. a command ran; IGS: a command terminator produced an action or an error, or a loop step ran); distinct by case hash.",
     );
@@ -104,6 +107,17 @@ fn main() {
     let mult = spread_multiplier(total);
     let k7 = known.clone();
     eng.enumerated(iso("igs_pairs", 0, 0).exhaustive(true), total, move |i| ip.case(i * mult % total), move |c| igs::check(c, &k7));
+
+    // ---- text dimension
+    let rt = Arc::new(rip::Texts::new());
+    let total = rt.total();
+    let mult = spread_multiplier(total);
+    let k8 = known.clone();
+    eng.enumerated(iso("rip_text", 0, 0).exhaustive(true), total, move |i| rt.case(i * mult % total), move |c| rip::check(c, &k8));
+    let total = igs::texts_total();
+    let mult = spread_multiplier(total);
+    let k9 = known.clone();
+    eng.enumerated(iso("igs_text", 0, 0).exhaustive(true), total, move |i| igs::texts_case(i * mult % total), move |c| igs::check(c, &k9));
 
     // ---- random streams (state carries over from command to command)
     let k4 = known.clone();
